@@ -322,7 +322,7 @@ Definition directive (st : regstate) (s : stmt) : option action :=
   | SForbidden o => Some (AView (force forced_forbidden o) (Plain (o_behave o)))
   | SNotFound o false => Some (AView (force forced_notfound o) (Plain (o_behave o)))
   | SNotFound o true =>
-      Some (AView (force forced_notfound o) (Slash (secured_permission st false None) (o_behave o)))
+      Some (AView (force forced_notfound o) (Slash (secured_permission st false slash_inner_permission) (o_behave o)))
   | SExcView o => Some (AView (force forced_excview o) (Plain (o_behave o)))
   | SStatic o =>
       Some (AView (with_perm (Some (match o_perm o with None => static_none_default | Some p => p end)) o)
@@ -516,11 +516,14 @@ Definition forbid_source (prog : list stmt) (prev : option event) : bool :=
   | Some (Body t _) => match stmt_behave prog t with BRaise EForbidden => true | _ => false end
   | _ => false
   end.
-Fixpoint j4 (prog : list stmt) (fin : final) (prev : option event) (tr : trace) : bool :=
+Fixpoint j4 (prog : list stmt) (fin : final) (prev : option event) (orig : bool) (tr : trace) : bool :=
   match tr with
-  | [] => match fin with Propagated EForbidden => forbid_source prog prev | _ => true end
-  | Raised EForbidden :: r => forbid_source prog prev && j4 prog fin (Some (Raised EForbidden)) r
-  | e :: r => j4 prog fin (Some e) r
+  | [] => match fin with
+          | Propagated EForbidden => forbid_source prog prev || orig   (* orig: the HTTPForbidden of the main handler re-raised *)
+          | _ => true
+          end
+  | Raised EForbidden :: r => forbid_source prog prev && j4 prog fin (Some (Raised EForbidden)) true r
+  | e :: r => j4 prog fin (Some e) orig r
   end.
 
 (* J5 the policy is only ever asked about a permission that protects some view for that context *)
@@ -535,7 +538,7 @@ Fixpoint j5 (prog : list stmt) (tr : trace) : bool :=
    8 granted check not on behalf of the next view, 16 blocked without refusal, 32 stray check *)
 Definition judge (prog : list stmt) (tr : trace) (fin : final) : N :=
   ((if j1 prog [] tr then 0 else 1) + j2 fin false false tr + (if j3 prog tr then 0 else 8)
-   + (if j4 prog fin None tr then 0 else 16) + (if j5 prog tr then 0 else 32))%N.
+   + (if j4 prog fin None false tr then 0 else 16) + (if j5 prog tr then 0 else 32))%N.
 
 (* observation level: events name the statement (tag of the registration div 2) *)
 Definition stag (rt : N) : N := if N.leb (2 * builtin_tag) rt then builtin_tag else N.div rt 2.
